@@ -14,11 +14,30 @@ FRAMERS = {'tcp': ModbusSocketFramer, 'rtu': ModbusRtuFramer, 'ascii': ModbusAsc
 _DEC = {}
 
 
+_NEIGHBOURS = []
+
+
+def _neighbour(side):
+    """another decoder of the same class on which an application registered its own variants of every standard
+    message class (function-level and sub-function-level): what one decoder object is told must not show in another"""
+    cls = ServerDecoder if side == 'req' else ClientDecoder
+    name = cls.__name__
+    d = cls()
+    for table in ('_%s__function_table' % name, '_%s__sub_function_table' % name):
+        for c in getattr(cls, table):
+            ns = dict(decode=lambda self, data: setattr(self, 'neighbour_decoded', True), __doc__='neighbour variant')
+            d.register(type('Neighbour' + c.__name__, (c,), ns))
+    _NEIGHBOURS.append(d)
+
+
 def decoder(side):
     """side 'req' -> server decoder (decodes requests), 'rsp' -> client decoder.
-    Decoders are stateless lookup tables; one instance per side is shared."""
+    Decoders are stateless lookup tables; one instance per side is shared.  A neighbour decoder with its own
+    registered classes is created before and after it."""
     if side not in _DEC:
+        _neighbour(side)
         _DEC[side] = ServerDecoder() if side == 'req' else ClientDecoder()
+        _neighbour(side)
     return _DEC[side]
 
 
